@@ -251,18 +251,36 @@ def run_driver(lines, timeout=600):
     build_driver()
     if not lines:
         return []
-    p = subprocess.run(["bash", "-c", "ulimit -s unlimited 2>/dev/null; exec ./driver"], cwd=BUILD, input="\n".join(lines) + "\n",
-                       stdout=subprocess.PIPE, stderr=subprocess.PIPE, text=True, timeout=timeout)
-    out = p.stdout.split("\n")
-    if out and out[-1] == "":
-        out.pop()
-    if len(out) != len(lines):
-        raise RuntimeError(f"driver returned {len(out)} lines for {len(lines)} cases; stderr: {p.stderr[-500:]}")
-    return out
+
+    def one(chunk):
+        p = subprocess.run(["bash", "-c", "ulimit -s unlimited 2>/dev/null; exec ./driver"], cwd=BUILD, input="\n".join(chunk) + "\n",
+                           stdout=subprocess.PIPE, stderr=subprocess.PIPE, text=True, timeout=timeout)
+        out = p.stdout.split("\n")
+        if out and out[-1] == "":
+            out.pop()
+        if len(out) != len(chunk):
+            raise RuntimeError(f"driver returned {len(out)} lines for {len(chunk)} cases; stderr: {p.stderr[-500:]}")
+        return out
+
+    # large batches are cut into chunks that run in parallel (the time limit is per chunk)
+    CH = 400
+    if len(lines) <= CH:
+        return one(lines)
+    from concurrent.futures import ThreadPoolExecutor
+    chunks = [lines[i:i + CH] for i in range(0, len(lines), CH)]
+    with ThreadPoolExecutor(max_workers=min(8, NCPU)) as ex:
+        outs = list(ex.map(one, chunks))
+    return [o for chunk in outs for o in chunk]
 
 
 # --------------------------------------------------------------------------------------------
 # implementation helpers
+def scipy_draw_failure(e):
+    """scipy's generic discrete ppf fails for some quantiles of the Flory-Schulz / Schulz-Zimm laws (C11's known findings): it either gives up
+    ('updating stopped, endless loop') or doubles its bracket until the address-space limit of run_check.py stops it (MemoryError)"""
+    return e is not None and ("endless loop" in str(e) or isinstance(e, MemoryError))
+
+
 class Timeout(Exception):
     pass
 
